@@ -1413,9 +1413,24 @@ def run_case(case, acc):
     try:
         with vk:
             obs = observe(ps, case)
+            reordered = []
+            if case["dom"] == "bat" and len(case["bats"]) >= 2:
+                # a directory listing has no order: the same tree listed differently is the same hardware
+                for order in (lambda p, names: sorted(names), lambda p, names: sorted(names, reverse=True)):
+                    vk.list_order = order
+                    reordered.append(observe(ps, case))
+                vk.list_order = None
     finally:
         _SYSCONF["fail"] = False
     viols = evaluate(case, obs, ps, acc)
+    for o2 in reordered:
+        acc.count("battery_listing_orders_compared")
+        a, b = obs["battery"], o2["battery"]
+        if (a[0], repr(a[1])) != (b[0], repr(b[1])):
+            viols.append(("battery_depends_on_listing_order",
+                          f"sensors_battery() -> {a[1]!r}, and {b[1]!r} when /sys/class/power_supply lists the same entries "
+                          f"in another order"))
+            break
     viols = [(m, d + " | case=" + short(case)) for m, d in viols]
     acc.count("layouts:" + case["dom"])
     acc.case(case, nontrivial(case), viols)
